@@ -239,6 +239,41 @@ type Odd struct {
 	P *complex128
 }
 
+// LongNames has several field names of equal length >= 24 bytes, all omitted
+// when zero: documents carry drawn subsets of them.
+type LongNames struct {
+	One   string `struct:"a_rather_long_field_name_number_one,omitempty"`
+	Two   string `struct:"a_rather_long_field_name_number_two,omitempty"`
+	Six   *int   `struct:"a_rather_long_field_name_number_six,omitempty"`
+	Ten   []int  `struct:"a_rather_long_field_name_number_ten,omitempty"`
+	Short string `struct:"s,omitempty"`
+	Other string `struct:"b_rather_long_field_name_number_one,omitempty"`
+}
+
+// ZeroS reports itself empty through gotype.IsZeroer; PlainS has the same
+// layout and kind but no such method; ZeroI / PlainI likewise for an int kind.
+type ZeroS struct{ X int }
+
+func (z ZeroS) IsZero() bool { return z.X == 0 }
+
+type PlainS struct{ X int }
+
+type ZeroI int
+
+func (z ZeroI) IsZero() bool { return z == 7 } // "empty" is not the zero value
+
+type PlainI int
+
+// OmitIfc has omitempty fields of interface type: whether the field is
+// reported depends on the dynamic type in it.
+type OmitIfc struct {
+	ID int
+	V  interface{} `struct:"v,omitempty"`
+	W  interface{} `struct:"w,omitempty"`
+	Z  ZeroS       `struct:"z,omitempty"`
+	P  PlainS      `struct:"p,omitempty"`
+}
+
 // Empty has size zero: slices of it have elements without extent.
 type Empty struct{}
 
@@ -876,6 +911,56 @@ var Catalogue = []TypeEntry{
 		return Shapes{One: genShape(c), M: genMap(c, genShape), L: genSlice(c, genShape), N: ShapeMap(genMap(c, genShape)),
 			In: map[string]Shape{"in." + GenKey(c, 6): genShape(c)}}
 	})),
+	mk("LongNames", true, func(c *simkit.Choices) LongNames {
+		// (omitempty omits empty strings, slices and nil pointers - not zero numbers)
+		var l LongNames
+		short := func() string { return string(rune('a'+c.N(26))) + string(rune('a'+c.N(26))) }
+		if c.Bool() {
+			l.One = short()
+		}
+		if c.Bool() {
+			l.Two = short()
+		}
+		if c.N(3) == 0 {
+			n := c.N(10)
+			l.Six = &n
+		}
+		if c.N(3) == 0 {
+			l.Ten = []int{c.N(10)}
+		}
+		if c.N(3) == 0 {
+			l.Short = short()
+		}
+		if c.N(3) == 0 {
+			l.Other = short()
+		}
+		return l
+	}),
+	foldOnly(mk("OmitIfc", true, func(c *simkit.Choices) OmitIfc {
+		dyn := func() interface{} {
+			x := c.N(2) * (1 + c.N(9))
+			switch c.N(9) {
+			case 0:
+				return nil
+			case 1:
+				return ZeroS{X: x}
+			case 2:
+				return PlainS{X: x}
+			case 3:
+				return ZeroI(x)
+			case 4:
+				return PlainI(x)
+			case 5:
+				return &ZeroS{X: x}
+			case 6:
+				return x
+			case 7:
+				return genStr(c)
+			}
+			return genIfc(c, 1)
+		}
+		return OmitIfc{ID: c.N(100), V: dyn(), W: dyn(), Z: ZeroS{X: c.N(2)}, P: PlainS{X: c.N(2)}}
+	})),
 	mk("[]Empty", false, func(c *simkit.Choices) []Empty { return genSlice(c, func(*simkit.Choices) Empty { return Empty{} }) }),
 	mk("map[string]Empty", true, func(c *simkit.Choices) map[string]Empty {
 		return genMap(c, func(*simkit.Choices) Empty { return Empty{} })
@@ -1224,6 +1309,7 @@ var families = map[string][]string{
 	"ints": {"[]int8", "[]int16", "[]int32", "[]int64", "[]uint8", "[]uint16", "[]uint32", "[]uint64", "[]uint", "[]int", "SmallPtrs", "[3]int", "ArrHolder",
 		"map[string]int8", "map[string]int16", "map[string]int32", "map[string]int64", "map[string]uint", "map[string]uint8", "map[string]uint16", "map[string]uint32", "map[string]uint64", "map[string]float32", "map[string]float64", "[]float32", "[]float64"},
 	"kv":     {"OrderedKV", "WithKV", "map[string]string", "Strs"},
+	"omit":   {"OmitIfc", "OmitAll", "LongNames", "Tagged"},
 	"empty":  {"[]Empty", "map[string]Empty", "Empties", "[]interface{}", "map[string]interface{}"},
 	"shape":  {"map[string]Shape", "[]Shape", "Shapes", "map[string]interface{}", "[]interface{}"},
 	"folder": {"WithFolder", "InlineFolder", "InlineIfc", "InlineMap", "InlineTyped", "map[string]interface{}"},
@@ -1232,7 +1318,7 @@ var families = map[string][]string{
 	"ifc":    {"interface{}", "[]interface{}", "map[string]interface{}", "[]map[string]interface{}", "Strs", "Tagged"},
 }
 
-var familyNames = []string{"wrap", "inline", "ints", "shape", "empty", "packed", "inner", "named", "score", "simple", "kv", "folder", "local", "ifc"}
+var familyNames = []string{"wrap", "inline", "ints", "shape", "empty", "omit", "packed", "inner", "named", "score", "simple", "kv", "folder", "local", "ifc"}
 
 // PickRelated draws n types; half of the time all from one family (types
 // that contain each other), else independently.
